@@ -148,3 +148,18 @@ Theorem C13_short_stream_decode :
     view_deserialize_scoped zh t delivered scope = Err.
 Proof. exact short_stream_decode. Qed.
 Print Assumptions C13_short_stream_decode.
+
+(* the same for the flat decoders assembled from the codec helpers (Codec.flat_dec):
+   [flat_decode_scoped t c delivered scope] = value.Deserialize(NewDecodingReader(stream, scope))
+   on a stream that only delivers [delivered]; a fixed-size top-level value is handed exactly its
+   size as scope (its decoder is a plain fixed-size read, as in C03 / C10). *)
+From Ztyp Require Import Spec Codec Extras FlatStreamProofs.
+
+Theorem C13_short_stream_flat :
+  forall t c delivered scope,
+    wf_ty t = true -> small_params t = true -> scope < 2 ^ 63 ->
+    (spec_is_fixed t = true -> scope = spec_fixed_len t) ->
+    lenN delivered < scope ->
+    flat_decode_scoped t c delivered scope = Err.
+Proof. exact flat_short_stream. Qed.
+Print Assumptions C13_short_stream_flat.
